@@ -15,6 +15,7 @@ RULE = ("1-3 inputs (+ optional climatology file) with differing coverage, text 
 RULE += " " + "The MAE of every csv slice is also compared with the selected cases' (not only the counts)."
 RULE += " " + 'Option values are partly written in range syntax; long series (25-45 days, several runs a day) with long -d lists; empty selections under several aggregators; shards rotate the process time zone.'
 RULE += " " + 'Rounds 9-10: duplicate ids in -l combined with the range options.'
+RULE += " " + 'Rounds 11-12: a station, time or lead time whose every data column is missing in one file still takes part in the selection.'
 ASSUMPTIONS = ["location metadata is consistent across files (the first file's is used for range options)",
                "initialisation times on whole hours; coordinates exactly representable in float32"]
 REQUIRED_COUNTERS = ["option_sets", "list_checks", "data_attr_checks", "csv_checks", "empty_selection_checks", "strict_subsets"]
